@@ -579,6 +579,23 @@ def native_recovery_check(which, shape, s, e, check_min=True):
         return f"the {'HSDP' if which == 'fsdp' else 'FSDP'} copy raised {type(ex).__name__}: {str(ex)[:120]}"
     if len(other) != len(res) or any(a.shape != b.shape or a.storage_offset() != b.storage_offset() for a, b in zip(res, other)):
         return "FSDP and HSDP copies disagree"
+    # "as views": also for a flat shard that is itself a strided view (every other element of a buffer) — the pieces must alias the shard's
+    # storage, never be copies (a flat 1-D strided tensor admits every narrow / view the recovery needs)
+    if e > s:
+        buf = torch.zeros(2 * (e - s), dtype=torch.float64)
+        strided = buf[1::2]
+        strided.copy_(full[s:e])
+        try:
+            res2 = outer(strided, torch.Size(shape), s, e)
+        except BaseException as ex:  # noqa
+            return f"strided flat shard: raised {type(ex).__name__}: {ex}"
+        if len(res2) != len(res):
+            return "strided flat shard: different number of pieces than for the contiguous shard"
+        for a, b in zip(res2, res):
+            if a.untyped_storage().data_ptr() != buf.untyped_storage().data_ptr():
+                return "strided flat shard: a returned block is a COPY, not a view of the shard"
+            if a.shape != b.shape or not torch.equal(a, b):
+                return "strided flat shard: pieces differ from those of the contiguous shard"
     return None
 
 
